@@ -164,6 +164,9 @@ func propC01(j *Job) {
 	}
 	cases = append(cases, famZ8([]int{32769, 32770, 32771})...)
 	cases = append(cases, famZ9(modes, 1)...)
+	// a receive buffer whose tracking window is not a multiple of 64 TSNs while window/64 is a
+	// power of two (round-6 seeds C01-r6B, C02-r6A: the bitmap ring sized from the unrounded value)
+	cases = append(cases, famZ4([]uint32{256 << 10}, []int{2300})...)
 	// an outage that swallows a chunk and several of its retransmissions: delivered all the same
 	// once the network is back (round-5 seed C01-r5A: a retransmission timer that gives up)
 	if j.Thorough() {
@@ -205,6 +208,7 @@ func propC02(j *Job) {
 	}
 	cases = append(cases, famZ9(modes, 1)...)
 	cases = append(cases, famZS([]int{1000, 4300})...)
+	cases = append(cases, famZ4([]uint32{256 << 10}, []int{2300})...)
 	runCases(j, cases, func(spec *xferSpec) func(m *Sim, x *Exec, r *xferResult) { return deliveryFinal(spec, true, monOpts{}) })
 	// reliable streams next to a partially reliable one whose message is lost and abandoned:
 	// whatever else is lost (the FORWARD-TSN, its acknowledgement), the reliable data still gets
